@@ -261,12 +261,166 @@ where
     Ok(())
 }
 
+// ------------------------------------------------------------------------------------------
+// STARK transcript
+// ------------------------------------------------------------------------------------------
+
+#[derive(Clone, Debug, Serialize, Deserialize)]
+pub struct StarkCase {
+    pub stark: crate::gen::stark::RawStark,
+    pub edits: Vec<RawEdit>,
+    pub exhaustive: bool,
+}
+
+fn stark_case(n: usize, exhaustive: bool) -> BoxedStrategy<StarkCase> {
+    bx((crate::gen::stark::raw_stark(), prop::collection::vec(raw_edit(), n..=n)).prop_map(move |(stark, edits)| StarkCase { stark, edits, exhaustive }))
+}
+
+fn stark_groups(ch: &starky::proof::StarkProofChallenges<F, D>) -> Vec<(String, Vec<u64>)> {
+    let mut g = vec![];
+    if let Some(l) = &ch.lookup_challenge_set {
+        g.push((
+            "lookup".to_string(),
+            l.challenges.iter().flat_map(|c| [c.beta.to_canonical_u64(), c.gamma.to_canonical_u64()]).collect(),
+        ));
+    }
+    g.push(("alphas".to_string(), ch.stark_alphas.iter().map(|x| x.to_canonical_u64()).collect()));
+    g.push(("zeta".to_string(), ext_to_arr(ch.stark_zeta).iter().map(|x| x.to_canonical_u64()).collect()));
+    g.push(("fri_alpha".to_string(), ext_to_arr(ch.fri_challenges.fri_alpha).iter().map(|x| x.to_canonical_u64()).collect()));
+    for (i, b) in ch.fri_challenges.fri_betas.iter().enumerate() {
+        g.push((format!("fri_beta_{}", i), ext_to_arr(*b).iter().map(|x| x.to_canonical_u64()).collect()));
+    }
+    g.push(("pow_response".to_string(), vec![ch.fri_challenges.fri_pow_response.to_canonical_u64()]));
+    g.push(("query_indices".to_string(), ch.fri_challenges.fri_query_indices.iter().map(|&x| x as u64).collect()));
+    g
+}
+
+fn stark_shape<const COLS: usize, const PIS: usize>(c: &StarkCase, el: &crate::gen::stark::ElabStark, st: &mut Stats) -> Result<(), String> {
+    use crate::circuit::PC;
+    use crate::gen::stark::*;
+    use plonky2::iop::challenger::Challenger;
+    use plonky2::plonk::config::GenericConfig as GC;
+    use starky::proof::StarkProofWithPublicInputs;
+    type H = <PC as GC<D>>::Hasher;
+    let stark = GenStark::<COLS, PIS> { def: std::sync::Arc::new(el.def.clone()) };
+    let proof: StarkProofWithPublicInputs<F, PC, D> = starky::prover::prove::<F, PC, GenStark<COLS, PIS>, D>(
+        stark.clone(),
+        &el.config,
+        trace_columns(&el.trace, COLS),
+        &el.pis,
+        None,
+        &mut plonky2::util::timing::TimingTree::default(),
+    )
+    .map_err(|e| format!("honest stark prove failed: {:#}", e))?;
+    let chash = hash_of(&c.stark);
+    let challenges_of = |p: &StarkProofWithPublicInputs<F, PC, D>, cfg: &starky::config::StarkConfig| {
+        crate::engine::catch(|| {
+            let mut ch = Challenger::<F, H>::new();
+            p.get_challenges(&stark, &mut ch, None, None, false, cfg, None)
+        })
+    };
+    let base = stark_groups(&challenges_of(&proof, &el.config).map_err(|p| format!("get_challenges panicked on an honest proof: {}", p))?);
+    let n_betas = base.iter().filter(|g| g.0.starts_with("fri_beta_")).count();
+    let fc = &el.config.fri_config;
+    let idx_bits = (el.log_n + fc.rate_bits) * fc.num_query_rounds;
+    // group indices (no lookups in these definitions): alphas 0, zeta 1, fri_alpha 2, betas 3.., pow, indices
+    let g_beta0 = 3usize;
+    let g_pow = g_beta0 + n_betas;
+    let has_quotient = proof.proof.quotient_polys_cap.is_some();
+    let mut check = |what: String, first_dep: usize, p: &StarkProofWithPublicInputs<F, PC, D>, cfg: &starky::config::StarkConfig, st: &mut Stats| -> Result<(), String> {
+        let new = match challenges_of(p, cfg) {
+            Ok(n) => stark_groups(&n),
+            Err(_) => return Ok(()), // an edited parameter made the helper itself fail: nothing to compare
+        };
+        st.evals(1);
+        st.label(&format!("stark_component:{}", what.split('#').next().unwrap_or(&what)));
+        st.nontrivial(&(chash, what.clone()));
+        compare(&base, &new, first_dep, idx_bits, &format!("stark {}", what))
+    };
+    // statement: public inputs and config
+    if PIS > 0 {
+        let mut p2 = proof.clone();
+        p2.public_inputs[frac32(c.edits[0].pos, PIS)] += plonky2::field::types::Field::ONE;
+        check("public_input".into(), 0, &p2, &el.config, st)?;
+    }
+    {
+        let mut cfg = el.config.clone();
+        cfg.security_bits += 1;
+        check("config.security_bits".into(), 0, &proof, &cfg, st)?;
+        let mut cfg = el.config.clone();
+        cfg.fri_config.proof_of_work_bits += 1;
+        check("config.fri.proof_of_work_bits".into(), 0, &proof, &cfg, st)?;
+        let mut cfg = el.config.clone();
+        cfg.fri_config.num_query_rounds += 1;
+        check("config.fri.num_query_rounds".into(), 0, &proof, &cfg, st)?;
+        let mut cfg = el.config.clone();
+        cfg.fri_config.reduction_strategy = match cfg.fri_config.reduction_strategy.clone() {
+            FriReductionStrategy::Fixed(mut v) => {
+                v.push(1);
+                FriReductionStrategy::Fixed(v)
+            }
+            FriReductionStrategy::ConstantArityBits(a, f) => FriReductionStrategy::ConstantArityBits(a, f + 1),
+            FriReductionStrategy::MinSize(o) => FriReductionStrategy::MinSize(Some(o.unwrap_or(0) + 1)),
+        };
+        check("config.fri.reduction_strategy".into(), 0, &proof, &cfg, st)?;
+    }
+    // prover messages
+    let mut tree = to_tree(&proof);
+    let leaves: Vec<Path> = numeric_leaves(&tree);
+    let dep_of = |class: &str, path: &Path| -> Option<usize> {
+        if class.starts_with("proof.trace_cap") {
+            Some(0)
+        } else if class.starts_with("proof.quotient_polys_cap") {
+            Some(1)
+        } else if class.starts_with("proof.openings") {
+            Some(2)
+        } else if class.starts_with("proof.opening_proof.commit_phase_merkle_caps") {
+            let i = path.iter().find_map(|s| if let Seg::Idx(i) = s { Some(*i) } else { None }).unwrap_or(0);
+            Some(g_beta0 + i)
+        } else if class.starts_with("proof.opening_proof.final_poly") || class.starts_with("proof.opening_proof.pow_witness") {
+            Some(g_pow)
+        } else {
+            None
+        }
+    };
+    let tl: Vec<usize> = (0..leaves.len()).filter(|&i| dep_of(&class_of(&leaves[i]), &leaves[i]).is_some()).collect();
+    let plan: Vec<usize> = if c.exhaustive && tl.len() <= 4000 { tl.clone() } else { c.edits.iter().map(|r| tl[frac32(r.pos, tl.len())]).collect() };
+    for (n, li) in plan.into_iter().enumerate() {
+        let path = &leaves[li];
+        let class = class_of(path);
+        let dep = dep_of(&class, path).unwrap();
+        let r = &c.edits[n % c.edits.len()];
+        let e = if r.kind % 2 == 0 { ValueEdit::Plus1 } else { ValueEdit::Set(r.val) };
+        let old = get(&tree, path).cloned().unwrap();
+        edit_value(&mut tree, path, e, crate::gen::field::P);
+        let p2: Result<StarkProofWithPublicInputs<F, PC, D>, _> = Deserialize::deserialize(&tree);
+        *get_mut(&mut tree, path).unwrap() = old;
+        let Ok(p2) = p2 else { continue };
+        check(format!("{}#{}", class, path_string(path)), dep, &p2, &el.config, st)?;
+    }
+    let _ = has_quotient;
+    Ok(())
+}
+
+fn prop_stark(c: &StarkCase, st: &mut Stats) -> Result<(), String> {
+    let lim = crate::gen::stark::StarkLimits {
+        max_log_n: 6,
+        min_queries: 2,
+        max_queries: 10,
+        max_pow: 4,
+        min_degree: 1,
+        ..Default::default()
+    };
+    let el = crate::gen::stark::elaborate_stark(&c.stark, &lim);
+    crate::with_stark_shape!(el.shape, stark_shape, c, &el, st)
+}
+
 fn prop(c: &Case, st: &mut Stats) -> Result<(), String> {
     with_config!(c.circuit.config.keccak, run_case, c, st)
 }
 
 pub fn run(ctx: &mut Ctx) {
-    ctx.rule = "accepted PLONK proof x one transcript component (circuit digest element, public input, each FRI / degree parameter, \
+    ctx.rule = "accepted PLONK proof (and, in sub-check stark_transcript, accepted STARK proof of a generated definition) x one transcript component (circuit digest element, public input, each FRI / degree parameter, \
                 every cap entry, every opening, every commit-phase cap entry, every final-polynomial coefficient, the proof-of-work witness) \
                 x an edit; challenges are recomputed with the public get_challenges; non-trivial = the component is absorbed before at least \
                 one challenge group; distinct = (circuit, component position)"
@@ -278,6 +432,8 @@ pub fn run(ctx: &mut Ctx) {
     let max_ops = ctx.tier.pick(10, 30);
     let ex = ctx.tier == crate::engine::Tier::Thorough;
     ctx.run_sub("plonk_transcript", n, 14, move || case(max_ops, e, ex), prop);
+    let (ns, es) = ctx.tier.pick((280, 120), (6000, 300));
+    ctx.run_sub("stark_transcript", ns, 14, move || stark_case(es, ex), prop_stark);
 }
 
 #[allow(unused)]
